@@ -2,6 +2,7 @@ package main
 
 import (
 	"fmt"
+	"strings"
 
 	"golang.org/x/tools/go/ssa"
 )
@@ -77,6 +78,54 @@ func dumpTables(l *Loaded) {
 		})
 		for _, r := range returnsOf(f) {
 			fmt.Println(name, "return", roleOf(l, retVal(r, 0), f.Params[0].Name(), 0))
+		}
+	}
+}
+
+func dumpV2Tables(l *Loaded) {
+	ev := func(call *ssa.Call) string {
+		f := staticCallee(&call.Call)
+		if f == nil || !l.inModule(f) {
+			return ""
+		}
+		switch f.Name() {
+		case "IncrCounter", "MeasureSince", "sizeBytes", "isLeaf", "Version", "Sequence":
+			return ""
+		}
+		var as []string
+		for _, a := range call.Call.Args {
+			as = append(as, roleOf(l, a, "", 0))
+		}
+		return f.Name() + "(" + strings.Join(as, ",") + ")"
+	}
+	for _, name := range []string{"*Tree.rotateRight", "*Tree.rotateLeft"} {
+		fn := l.Func("", name)
+		env := &tableEnv{l: l, flag: map[string]int{}, cmp: func(a, b string) (int, bool) { return 0, false }}
+		run := runTable(fn, env, ev)
+		fmt.Println("V2", name, strings.Join(run.events, " ; "), "=>", func() string {
+			if run.ret == nil {
+				return "stuck " + l.ipos(run.stuck)
+			}
+			return roleOf(l, retVal(run.ret, 0), "", 0)
+		}())
+	}
+	rs := l.Func("", "*Tree.recursiveSet")
+	for _, ord := range []int{-1, 0, 1} {
+		for _, leaf := range []int{1, -1} {
+			ord := ord
+			env := &tableEnv{l: l, flag: map[string]int{"isLeaf()": leaf, "isReplaying": -1, "storeLeafValues": 1, "dirty": -1, "recursiveSet()#1": -1}, cmp: func(a, b string) (int, bool) {
+				if a == "arg1" && strings.HasSuffix(b, ".key") {
+					return ord, true
+				}
+				return 0, false
+			}}
+			run := runTable(rs, env, ev)
+			fmt.Println("V2 recursiveSet", ord, leaf, strings.Join(run.events, " ; "), "=>", func() string {
+				if run.ret == nil {
+					return "stuck " + l.ipos(run.stuck)
+				}
+				return roleOf(l, retVal(run.ret, 0), "", 0) + " | " + roleOf(l, retVal(run.ret, 1), "", 0)
+			}())
 		}
 	}
 }
